@@ -145,8 +145,11 @@ async fn run_scenario(sc: Value, agent: String, acceptor: tokio_rustls::TlsAccep
 }
 
 /// Daemon mode: ONE agent process (`-f <period>`) runs the job several times against the same router
-/// and IRRd; before chosen runs the router "reboots" (its ephemeral instance is empty again).  Every
-/// NETCONF session of the agent is one run; its outcome is inferred from what the router saw.
+/// and IRRd.  Session j of the process is run j of the scenario: before it starts, the router's running
+/// configuration, the IRR database and the faults are those of `runs[j]` (the last run's, if the scenario has
+/// fewer runs than sessions); before chosen runs the router "reboots" (its ephemeral instance is empty again).
+/// After a run that failed the daemon would wait a minute: SIGHUP makes it run again at once.
+/// The outcome of a run is internal to the process and is inferred from what the router saw.
 async fn run_daemon_scenario(sc: Value, agent: String, acceptor: tokio_rustls::TlsAcceptor) -> Vec<Value> {
     let case = sc["case"].as_str().unwrap_or("?").to_string();
     let inst = sc["instance"].as_str().unwrap_or("bgpfu").to_string();
@@ -154,7 +157,8 @@ async fn run_daemon_scenario(sc: Value, agent: String, acceptor: tokio_rustls::T
     let period = d["period"].as_u64().unwrap_or(1);
     let nsess = d["sessions"].as_u64().unwrap_or(3) as usize;
     let reset_before: Vec<usize> = d["reset_before"].as_array().map(|a| a.iter().filter_map(|x| x.as_u64().map(|n| n as usize)).collect()).unwrap_or_default();
-    let run = &sc["runs"][0];
+    let runs: Vec<Value> = sc["runs"].as_array().cloned().unwrap_or_default();
+    let run_of = |j: usize| -> &Value { &runs[(j - 1).min(runs.len() - 1)] };
     let eph0 = eph_from_json(&sc["eph0"]);
     let mut out: Vec<Value> = Vec::new();
     let mut seq = 0usize;
@@ -165,8 +169,18 @@ async fn run_daemon_scenario(sc: Value, agent: String, acceptor: tokio_rustls::T
         out.push(v);
     };
     emit(&mut out, json!({"ev": "reset", "instance": inst, "meta": sc["meta"].clone()}));
-    let irrd = start_irrd(IrrDb::from_json(&run["irr"]), "ok");
-    let junos = start_junos(run["running"].clone(), eph0.clone(), vec![], acceptor.clone(), case.clone(), None).await;
+    let irrd = start_irrd(IrrDb::from_json(&run_of(1)["irr"]), "ok");
+    let set_inputs = |j: usize, junos: &FakeJunos, irrd: &FakeIrrd| {
+        let run = run_of(j);
+        let mode = run["irr_mode"].as_str().unwrap_or("ok").to_string();
+        *irrd.live.lock().unwrap() = (IrrDb::from_json(&run["irr"]), mode);
+        let mut g = junos.state.lock().unwrap();
+        g.running = run["running"].clone();
+        g.faults = faults_of(&run["faults"]);
+        g.refuse = run["router"].as_str() == Some("unreachable");
+    };
+    let junos = start_junos(run_of(1)["running"].clone(), eph0.clone(), vec![], acceptor.clone(), case.clone(), None).await;
+    set_inputs(1, &junos, &irrd);
     let mut cmd = tokio::process::Command::new(&agent);
     cmd.args(["-f", &period.to_string(), "--irrd-host", "127.0.0.1", "--irrd-port", &irrd.addr.port().to_string(), "--ephemeral-db", &inst,
               "remote", "--netconf-host", "127.0.0.1", "--netconf-port", &junos.addr.port().to_string(),
@@ -177,43 +191,101 @@ async fn run_daemon_scenario(sc: Value, agent: String, acceptor: tokio_rustls::T
         .stderr(Stdio::piped())
         .kill_on_drop(true);
     let mut child = cmd.spawn().expect("spawn agent");
+    let pid = child.id().unwrap_or(0) as i32;
+    // the agent logs to standard error: keep reading, or it blocks once the pipe is full
+    let errbuf: Arc<std::sync::Mutex<Vec<u8>>> = Arc::new(std::sync::Mutex::new(Vec::new()));
+    if let Some(mut pipe) = child.stderr.take() {
+        let errbuf = errbuf.clone();
+        drop(tokio::spawn(async move {
+            use tokio::io::AsyncReadExt;
+            let mut b = [0u8; 16384];
+            while let Ok(n) = pipe.read(&mut b).await {
+                if n == 0 {
+                    break;
+                }
+                errbuf.lock().unwrap().extend_from_slice(&b[..n]);
+            }
+        }));
+    }
     let ended = |g: &JunosState| g.log.iter().filter(|e| e["ev"] == "session_end").count();
+    // did session j end with an acknowledged commit and close-session?
+    let succeeded = |g: &JunosState, j: usize| {
+        let mine = |e: &&Value| e["session"] == json!(j) && e["ev"] == "req";
+        g.log.iter().filter(mine).any(|e| e["kind"] == "commit" && e["committed"] == json!(true))
+            && g.log.iter().filter(mine).any(|e| e["kind"] == "close-session")
+    };
     // eph_before[j], eph_after[j] for session j (1-based)
     let mut eph_before: Vec<Eph> = vec![eph0.clone()];
     let mut eph_after: Vec<Eph> = Vec::new();
-    let deadline = std::time::Instant::now() + Duration::from_secs(period * nsess as u64 + 20);
+    // what the DAEMON made of job j: after a job it takes for successful the next one follows after the period,
+    // after a failed one only after a minute or more
+    let mut job_ok: Vec<bool> = Vec::new();
+    let _ = succeeded;
+    let deadline = std::time::Instant::now() + Duration::from_secs((period + 6) * nsess as u64 + 25);
     while eph_after.len() < nsess && std::time::Instant::now() < deadline {
         tokio::time::sleep(Duration::from_millis(15)).await;
-        let mut g = junos.state.lock().unwrap();
-        if ended(&g) > eph_after.len() {
+        let done = {
+            let g = junos.state.lock().unwrap();
+            ended(&g) > eph_after.len()
+        };
+        if !done {
+            continue;
+        }
+        let j = eph_after.len() + 1;
+        {
+            let mut g = junos.state.lock().unwrap();
             eph_after.push(g.eph.clone());
-            if reset_before.contains(&(eph_after.len() + 1)) {
+            if reset_before.contains(&(j + 1)) {
                 g.eph = Eph::default();      // the router rebooted: ephemeral data is gone
             }
             eph_before.push(g.eph.clone());
         }
+        set_inputs(j + 1, &junos, &irrd);
+        // does the next job start by itself within the period (plus a generous margin)?
+        let wait_until = std::time::Instant::now() + Duration::from_millis(period * 1000 + 4000);
+        let mut came = false;
+        while std::time::Instant::now() < wait_until {
+            if junos.state.lock().unwrap().sessions > j {
+                came = true;
+                break;
+            }
+            tokio::time::sleep(Duration::from_millis(15)).await;
+        }
+        job_ok.push(came);
+        if !came && j < nsess && pid > 0 {
+            // the daemon is backing off: SIGHUP starts the next job at once
+            unsafe { libc_kill(pid, 1) };
+        }
+    }
+    if std::env::var("VERIF_DEBUG").is_ok() {
+        eprintln!("daemon loop over: seen {} of {nsess}, timed out: {}", eph_after.len(), std::time::Instant::now() >= deadline);
     }
     // stop the daemon
-    if let Some(pid) = child.id() {
-        unsafe { libc_kill(pid as i32, 15) };
+    if pid > 0 {
+        unsafe { libc_kill(pid, 15) };
     }
-    let res = tokio::time::timeout(Duration::from_secs(10), child.wait_with_output()).await;
-    let (code, stderr) = match res {
-        Ok(Ok(o)) => (o.status.code().unwrap_or(-1), String::from_utf8_lossy(&o.stderr).to_string()),
-        _ => (-3, String::new()),
+    let res = tokio::time::timeout(Duration::from_secs(10), child.wait()).await;
+    let code = match res {
+        Ok(Ok(st)) => st.code().unwrap_or(-1),
+        _ => -3,
     };
+    tokio::time::sleep(Duration::from_millis(20)).await;
+    let stderr = String::from_utf8_lossy(&errbuf.lock().unwrap()).to_string();
     if let Ok(dir) = std::env::var("VERIF_KEEP_STDERR") {
         let _ = std::fs::write(format!("{dir}/{case}-daemon.stderr"), &stderr);
     }
     let log = junos.state.lock().unwrap().log.clone();
     for j in 1..=eph_after.len() {
+        let run = run_of(j);
         if reset_before.contains(&j) {
             emit(&mut out, json!({"ev": "reboot", "run": j}));
         }
         let before = &eph_before[j - 1];
         emit(&mut out, json!({"ev": "run_start", "run": j, "running": run["running"], "eph": eph_to_json(before),
-                              "den": den_map(eph_filters(before)), "repeat": false, "expect": run["expect"], "irr_mode": "ok",
-                              "faults": [], "twin": false, "style": "", "daemon": true}));
+                              "den": den_map(eph_filters(before)), "repeat": run["repeat"].as_bool().unwrap_or(false) && !reset_before.contains(&j),
+                              "expect": run["expect"], "irr_mode": run["irr_mode"].as_str().unwrap_or("ok"),
+                              "faults": run["faults"], "twin": false, "style": "", "daemon": true,
+                              "unreachable": run["router"].as_str() == Some("unreachable")}));
         let mut committed = false;
         let mut closed = false;
         for e in log.iter().filter(|e| e["session"] == json!(j)) {
@@ -224,12 +296,16 @@ async fn run_daemon_scenario(sc: Value, agent: String, acceptor: tokio_rustls::T
             if e["ev"] == "req" && e["kind"] == "close-session" {
                 closed = true;
             }
+            if e["ev"] == "session_end" && e["refused"] == json!(true) {
+                continue;
+            }
             e["run"] = json!(j);
             e.as_object_mut().unwrap().remove("seq");
             emit(&mut out, e);
         }
         // the outcome of a run in daemon mode is internal to the process: inferred from the router's view
-        emit(&mut out, json!({"ev": "exit", "run": j, "code": if committed && closed { 0 } else { 1 }, "inferred": true, "timed_out": false,
+        let _ = (committed, closed);
+        emit(&mut out, json!({"ev": "exit", "run": j, "code": if job_ok.get(j - 1).copied().unwrap_or(false) { 0 } else { 1 }, "inferred": true, "timed_out": false,
                               "panicked": false, "panic_at": "", "wall_ms": 0, "stderr_error": "", "stderr_tail": ""}));
         let after = &eph_after[j - 1];
         emit(&mut out, json!({"ev": "run_end", "run": j, "eph": eph_to_json(after), "den": den_map(eph_filters(after))}));
